@@ -157,7 +157,8 @@ static void dump(void)
             int j = mc->oldestSentASDU;
             while (1) { printf("%d,", mc->sentASDUs[j].seqNo); if (j == mc->newestSentASDU) break; j = (j + 1) % mc->maxSentASDUs; }
         }
-        printf(" hp=%d rpos=%d\n", mc->highPrioQueue ? mc->highPrioQueue->entryCounter : -1, mc->recvBufPos);
+        int gi = -1; for (int g = 0; g < ngroups; g++) if (mc->redundancyGroup == groups[g]) gi = g;
+        printf(" hp=%d rpos=%d grp=%d\n", mc->highPrioQueue ? mc->highPrioQueue->entryCounter : -1, mc->recvBufPos, gi);
     }
     if (slave->serverMode == CS104_MODE_SINGLE_REDUNDANCY_GROUP) dump_queue("single", slave->asduQueue);
     for (int g = 0; g < ngroups; g++) { char t[16]; snprintf(t, sizeof t, "g%d", g); dump_queue(t, groups[g]->asduQueue); }
@@ -233,8 +234,8 @@ int main(void)
             int n = 1; sscanf(line, "%*s %d", &n);
             for (int i = 0; i < n && slave; i++) CS104_Slave_tick(slave);
             drain();
-            if (slave) printf("open %d\n", CS104_Slave_getOpenConnections(slave));
             for (int i = 0; i < nsocks; i++) if (socks[i] && socks[i]->destroyed == 1) { printf("closed c%d\n", i); socks[i]->destroyed = 2; }
+            if (slave) printf("open %d\n", CS104_Slave_getOpenConnections(slave));   /* always the last line of a tick block */
         }
         else if (!strcmp(cmd, "adv")) { long long ms; sscanf(line, "%*s %lld", &ms); Sim_advance((uint64_t) ms); }
         else if (!strcmp(cmd, "rx")) {
@@ -276,7 +277,7 @@ int main(void)
             int ci, vs, vr; sscanf(line, "%*s c%d vs=%d vr=%d", &ci, &vs, &vr);
             MasterConnection mc = con_of(ci); if (mc) { mc->sendCount = (uint16_t) vs; mc->receiveCount = (uint16_t) vr; peer_seen[ci] = vs; peer_ns[ci] = vr; }
         }
-        else if (!strcmp(cmd, "dump")) dump();
+        else if (!strcmp(cmd, "dump")) { dump(); printf("st end\n"); }
         else printf("? %s", line);
         drain();
         fflush(stdout);
